@@ -24,6 +24,13 @@ channel = repeated `Recv` until `!ok`), so the specification side is the Go lang
   - `Mutex`  : k workers add their deltas to a shared counter, `cnt += d` split into read and write,
                inside `mu.Lock()/mu.Unlock()` (`locked = true`) or without the mutex (`locked = false`:
                the racy variant, for which a lost update is exhibited).
+  - `SelN`   : n goroutines execute the SAME select statement `rounds` times, each on its own pre-filled
+               channel (`case v := <-first(id)` with a second case that is never ready).  Executing a select
+               is two steps: `eval i` evaluates the case operands into the case list OF THAT EXECUTION
+               (Go: the operands are evaluated exactly once, on entering the select statement, and belong to
+               that execution), `sel i` performs the communication of that list.  `shared = true` is the
+               variant with ONE case list per statement shared by all its executions (not Go): it is in the
+               model only to show that the model can tell the difference (`shared_cases_witness`).
   - `Merge`  : two producers on two channels, main goroutine `select`s over both (optionally with a
                `default` branch that only yields) until both are closed, summing.
   In the families an unbuffered channel (`cap = 0`) is run with one buffer slot (`effCap`) and the
@@ -409,5 +416,78 @@ def sys : Sys St Act := { en := fun s => acts.filter (enB s), step := step }
 def result (s : St) : Option Int := if s.fin && !s.panicked then some s.acc else none
 
 end Merge
+
+/-! ## n goroutines inside the same select statement -/
+namespace SelN
+
+structure G where
+  ch : List Int          -- the goroutine's own channel (pre-filled, nobody sends)
+  rounds : Nat           -- executions of the select still to do
+  ev : Option Nat        -- case list of the current execution: index of the channel of case 0
+  got : List Int
+  deriving Repr, DecidableEq
+
+inductive Act where
+  | eval (i : Nat)       -- goroutine i enters the select: evaluates its operands
+  | sel (i : Nat)        -- goroutine i: the communication
+  deriving Repr, DecidableEq
+
+structure St where
+  shared : Bool
+  sharedCase : Option Nat
+  gs : List G
+  deriving Repr
+
+def init (shared : Bool) (r : Nat) (lists : List (List Int)) : St :=
+  { shared := shared, sharedCase := none, gs := lists.map (fun l => { ch := l, rounds := r, ev := none, got := [] }) }
+
+/-- the channel the communication of goroutine i uses -/
+def chanOf (s : St) (own : Nat) : Nat := if s.shared then s.sharedCase.getD own else own
+
+def enB (s : St) : Act → Bool
+  | .eval i => match s.gs[i]? with
+    | some g => decide (0 < g.rounds) && g.ev.isNone
+    | none => false
+  | .sel i => match s.gs[i]? with
+    | some g => match g.ev with
+      | some c => match s.gs[chanOf s c]? with
+        | some h => !h.ch.isEmpty
+        | none => false
+      | none => false
+    | none => false
+
+def acts (s : St) : List Act := (List.range s.gs.length).flatMap (fun i => [.eval i, .sel i])
+
+def step (s : St) : Act → St
+  | .eval i =>
+    match s.gs[i]? with
+    | some g => { s with gs := s.gs.set i { g with ev := some i }, sharedCase := some i }
+    | none => s
+  | .sel i =>
+    match s.gs[i]? with
+    | some g =>
+      match g.ev with
+      | some c =>
+        let k := chanOf s c
+        match s.gs[k]? with
+        | some h =>
+          match h.ch with
+          | v :: rest =>
+            -- pop from channel k, deliver to goroutine i
+            let gs1 := s.gs.set k { h with ch := rest }
+            match gs1[i]? with
+            | some g1 => { s with gs := gs1.set i { g1 with rounds := g1.rounds - 1, ev := none, got := g1.got ++ [v] } }
+            | none => s
+          | [] => s
+        | none => s
+      | none => s
+    | none => s
+
+def sys : Sys St Act := { en := fun s => (acts s).filter (enB s), step := step }
+
+def finished (s : St) : Bool := s.gs.all (fun g => g.rounds == 0)
+def result (s : St) : Option (List (List Int)) := if finished s then some (s.gs.map (·.got)) else none
+
+end SelN
 
 end Chan
